@@ -22,6 +22,13 @@ sleep 0.2
 printf '` + n + `' > ` + n + `.out
 echo "end $GROG_TARGET" >> "$VTRACE"`})
 	}
+	// a directory output: its file blobs, its tree and its target result are written in that order
+	s.Targets = append(s.Targets, hist.Target{Pkg: "p", Name: "s0dir", Inputs: []string{"in.txt"}, Outputs: []string{"dir::dd"}, Command: traceStart + `
+rm -rf dd && mkdir -p dd/sub
+printf 'one' > dd/one.txt
+printf 'two' > dd/two.txt
+printf 'three' > dd/sub/three.txt
+echo "end $GROG_TARGET" >> "$VTRACE"`})
 	return s
 }
 
@@ -56,6 +63,7 @@ func c18Signals(c *Ctx) {
 	if fbin == "" {
 		return
 	}
+	abin := auditBinary(c)
 	base, cleanup := scratchBase(c, "c18")
 	defer cleanup()
 	src := signalSource()
@@ -184,6 +192,16 @@ func c18Signals(c *Ctx) {
 			for _, n := range box.CacheNames() {
 				if strings.HasPrefix(n, "target/") {
 					results++
+				}
+			}
+			// whatever the interrupted build left in the cache must be consistent
+			if abin != "" {
+				problems, _, _, aerr := auditCache(abin, box.CacheDir(), "")
+				if aerr != nil {
+					c.R.BrokenCheck("%v", aerr)
+				}
+				for _, p := range problems {
+					vio("C18:cache-audit:"+p.Kind+":after-signal-at:"+cs.cls, "%s", p.Detail)
 				}
 			}
 			if results > endsTotal {
